@@ -55,7 +55,8 @@ def gen_query(w, rng, s, g):
         for _ in range(rng.randint(0, 2)):
             if ks:
                 hops.append(rng.choice(ks))
-        s.update(a=a, z=z, hops=hops)
+        # an explicit depth limit (counted in links; paths of exactly that many links are within it) in half the queries
+        s.update(a=a, z=z, hops=hops, cut=rng.choice([None, None, None, 1, 2, 2, 3, 3, 4]))
     elif op == 'q_parent':
         s.update(n=w.pick_node(rng, g), rel=rng.choice(RELS), parent=rng.choice(CLASSES))
     elif op == 'q_peers':
@@ -326,14 +327,20 @@ def do_query(w, s):
         if len(m.gnodes(g)) > 8:
             raise SkipStep()
         for b in ('shared', 'disjoint'):
-            out = w.real_call(b, lambda bb: pg(bb).get_nodes_on_path_with_hops(node_a=a_, node_z=z_, hops=list(hops)))
+            cut = s.get('cut')
+            if cut is None:
+                out = w.real_call(b, lambda bb: pg(bb).get_nodes_on_path_with_hops(node_a=a_, node_z=z_, hops=list(hops)))
+            else:
+                out = w.real_call(b, lambda bb: pg(bb).get_nodes_on_path_with_hops(node_a=a_, node_z=z_,
+                                                                                    hops=list(hops), cut_off=cut))
             if not exists:
                 if out != ('exc', QE):
                     w.flag('C06', 'q_hops', {'store': b, 'symptom': 'missing_node_outcome'},
                            'path-with-hops with a missing end node: got %s' % (out,))
                 continue
             A = adj(m, g)
-            good = [p for p in simple_paths(A, a_, z_) if all(h in p for h in hops) and induced_acyclic(A, p)]
+            good = [p for p in simple_paths(A, a_, z_) if all(h in p for h in hops) and induced_acyclic(A, p) and
+                    (cut is None or len(p) - 1 <= cut)]
             best = min((len(p) for p in good), default=None)
             if out[0] == 'exc':
                 w.flag('C06', 'q_hops', {'store': b, 'symptom': 'raised', 'exc': out[1]},
@@ -346,8 +353,8 @@ def do_query(w, s):
                            'no loop-free path %s->%s through %s exists but %s was returned' % (a_, z_, hops, path))
             elif path not in good or len(path) != best:
                 w.flag('C06', 'q_hops', {'store': b, 'symptom': 'wrong_path'},
-                       'path with hops %s->%s via %s returned %s; shortest admissible length is %s (e.g. %s)' %
-                       (a_, z_, hops, path, best, [p for p in good if len(p) == best][:1]))
+                       'path with hops %s->%s via %s (depth limit %s) returned %s; shortest admissible length is %s '
+                       '(e.g. %s)' % (a_, z_, hops, cut, path, best, [p for p in good if len(p) == best][:1]))
             if best is not None:
                 w.stats.inc('probe.q_hops.path_exists')
         return set(), 'ok'
